@@ -29,6 +29,8 @@ func init() {
 			"both keys derive from all their documented components; sharing is dominated by the query-only eligibility tests; every wait on a shared record can also leave through the participant's own context; " +
 			"and (context provenance) whether a follower can return the leader's cancellation verbatim. It does not decide byte equality of what participants receive.",
 		Mutants: []Mutant{
+			{Name: "the request extensions are left out of the inbound key again (reverts the F79 fix)", File: inboundGo, Rule: "C11-R13", Key: "Context.Extensions/fed-to-the-inbound-key",
+				Old: "\t_, _ = h.Write(ctx.Extensions)\n", New: ""},
 			{Name: "the inbound leader no longer finishes its request when it panics (reverts the F64 fix)", File: resolveGo, Rule: "C11-R12", Key: "Resolver.ArenaResolveGraphQLResponse/leader-finish-survives-panic",
 				Old: "\t\t\t\tdefault:\n\t\t\t\t\tr.inboundRequestSingleFlight.FinishPanicked(inflight, fmt.Errorf(\"the leader of a de-duplicated request panicked: %v\", p))\n", New: "\t\t\t\tdefault:\n\t\t\t\t\t_ = fmt.Errorf(\"the leader of a de-duplicated request panicked: %v\", p)\n"},
 			{Name: "the subgraph leader finishes its item only on its return paths (positive control of the panic rule)", File: loaderGo, Rule: "C11-R12", Key: "Loader.loadByContext/leader-finish-survives-panic",
@@ -79,6 +81,7 @@ func runC11(r *fw.Run) {
 	defer c11LeaderWriteErrorIsNotShared(r)
 	defer c11OperationTypeFromSchemaRoots(r)
 	defer c11LeaderFinishSurvivesPanic(r)
+	defer c11InboundKeyCoversLateInjections(r)
 	defer c11SharedErrorKeepsItsChain(r)
 	defer c11LeaderContextErrorsRecognised(r)
 	p := r.Prog
@@ -1543,4 +1546,62 @@ func c11LeaderFinishSurvivesPanic(r *fw.Run) {
 			"the call at "+bad+" runs on the leader path before any deferred call that reaches Finish*: if it panics (user-supplied data source, hook, authorizer, writer) the record is never finished — the followers wait until their own contexts end and the entry stays in the table, so every later identical request becomes a follower of a leader that no longer exists")
 	}
 	r.Expect("C11-R12", "functions that acquire a single-flight record", n, 2)
+}
+
+// c11InboundKeyCoversLateInjections (R13): a follower of the inbound single flight receives the leader's bytes. Whatever
+// of the client's request reaches the subgraphs changes the answer, so it has to be in the sharing key. The loader puts
+// fields of resolve.Context into every subgraph request body on its way out (jsonparser.Set(input, ctx.F, …)); each such
+// field is written into the hash that the inbound key is taken from (the same set of fields as C16-R9 uses for the
+// entity cache key).
+func c11InboundKeyCoversLateInjections(r *fw.Run) {
+	p := r.Prog
+	r.Rule("C11-R13", "every resolve.Context field that the loader injects into subgraph request bodies (jsonparser.Set(input, ctx.F, …)) is written into the hash of the inbound single-flight key")
+	injected := map[string]string{}
+	for _, fi := range p.Funcs("resolve") {
+		if !strings.HasPrefix(fi.Name(), "Loader.") {
+			continue
+		}
+		info := fi.Info()
+		fw.WalkAll(fi.Decl.Body, func(nd ast.Node) bool {
+			c, ok := nd.(*ast.CallExpr)
+			if !ok || len(c.Args) < 2 {
+				return true
+			}
+			if fn := fw.Callee(info, c); fn != nil && fn.Name() == "Set" && fn.Pkg() != nil && strings.HasSuffix(fn.Pkg().Path(), "/jsonparser") {
+				if fv, _ := fw.Field(info, c.Args[1]); fv != nil && fw.IsFieldSel(info, c.Args[1], "resolve", "Context", fv.Name()) {
+					injected[fv.Name()] = p.Pos(c.Pos())
+				}
+			}
+			return true
+		})
+	}
+	fi := p.Func("resolve", "InboundRequestSingleFlight.GetOrCreate")
+	if fi == nil {
+		r.Error("C11-R13: InboundRequestSingleFlight.GetOrCreate not found")
+		return
+	}
+	info := fi.Info()
+	hashed := map[string]bool{}
+	fw.WalkAll(fi.Decl.Body, func(nd ast.Node) bool {
+		c, ok := nd.(*ast.CallExpr)
+		if !ok {
+			return true
+		}
+		if fn := fw.Callee(info, c); fn == nil || !strings.HasPrefix(fn.Name(), "Write") {
+			return true
+		}
+		for _, a := range c.Args {
+			if fv, _ := fw.Field(info, a); fv != nil && fw.IsFieldSel(info, a, "resolve", "Context", fv.Name()) {
+				hashed[fv.Name()] = true
+			}
+		}
+		return true
+	})
+	n := 0
+	for f, where := range injected {
+		n++
+		r.Check(hashed[f], "C11-R13", "Context."+f+"/fed-to-the-inbound-key", where, "Context."+f+", which the loader sends to the subgraphs ("+where+"), is written into the hash of the inbound key",
+			"Context."+f+" reaches every subgraph request but is not part of the inbound single-flight key: of two concurrent client requests that differ only in it the follower receives the leader's answer (`{\"tenant\":\"B\"}` is answered with the data of tenant A)")
+	}
+	r.Expect("C11-R13", "Context fields injected into subgraph requests", n, 1)
 }
